@@ -92,6 +92,18 @@ CHECKS["C10"] = {
     "note": "strings over a three-letter alphabet; regexes limited to prefix / suffix / infix forms whose meaning is definable in TLA+",
     "technique": "TLC-enumerated filter configurations x metrics with declarative expected output replayed into TagHandler",
 }
+CHECKS["C01"] = {
+    "text": "Pipeline.tla models parsers, per-shard queues, workers and the flusher hand-over as separate steps and is composed with the "
+            "ConservationProp monitor: TLC checks conservation as an inductive invariant over every interleaving of small instances "
+            "(and refutes a design that resets in a second round). TLC-generated stimulus schedules (offers, ticks, gates at "
+            "ReceiveMap / Flush / before Reset / backend callback) then drive the real parser -> tag stage -> BackendHandler -> "
+            "aggregators -> flusher chain under virtual time, and the recorded trace is validated by TLC against the monitor: every "
+            "datapoint id offered is reported in exactly one flush, nothing phantom, no series twice in a flush, same aggregator.",
+    "design_ref": "6/C01",
+    "note": "interleavings of the real code are steered through gates at the Aggregator and Backend seams plus quiescence waits; "
+            "goroutine interleavings inside a window are whatever the Go scheduler does; shutdown excluded as in the statement",
+    "technique": "TLC design check of the pipeline model + TLC trace validation of real executions driven by TLC-generated schedules",
+}
 NOT_APPLICABLE = [{"property_id": p, "reason": "check not built yet (build in progress; see DESIGN.md Appendix B for the order)"}
                   for p in ALL if p not in CHECKS]
 ENGINES[0]["serves_properties"] = sorted(CHECKS)
